@@ -140,6 +140,17 @@ add("C04", "BSTR+CH (+ concrete table diff)",
     "the claim; json_format/json are pass-through stubs. Dotted path variables in path_params and defaults of "
     "message/repeated required fields are outside the claim; the enum default is a recorded known finding (F7).")
 
+add("C11", "BSTR+CH (+ concrete structure diff)",
+    "BSTR symbolic execution of Generator._get_filename (with to_valid_module_name, versioned_module_name) and of "
+    "Naming.build over symbolic name/package strings; CrossHair on Options.build over token menus",
+    "For EVERY template name of the tree and ALL naming strings within the bound the output path is relative, normalised, "
+    "free of '%' and under <namespace>/<name>_<version>/ (<name> when unversioned); for ALL package strings within the bound "
+    "Naming.build infers the expected (namespace, name, version) and overrides replace exactly their part; unknown option "
+    "tokens never change the parsed Options. Per rendered program the file-set structure is diffed concretely.",
+    "DESIGN.md section 5 C11",
+    "Strings of 2-3 symbolic characters per component; package segments that look like versions excluded; two-template "
+    "collisions and snake-case coincidences of service/proto names are outside the claim.")
+
 PENDING = {}
 
 
